@@ -31,9 +31,16 @@ NbOf(ang, kinds) == IF KindsLegal([ang |-> ang, kinds |-> kinds]) THEN <<NBasis(
 ShellNbStep(e) ==
   /\ (e.nb1 = NbOf(e.ang, e.kinds) /\ e.nb2 = NbOf(e.ang2, e.kinds2) /\ e.nb3 = NbOf(e.ang2, e.kinds2)) = TRUE
   /\ UNCHANGED vars
+\* the laws of the statement on occupations the integer lattice of the model cannot hold (1.00001, 2 - 1e-9, -1e-4, ...), evaluated
+\* in floating point by the harness on the public properties: alpha + beta = stored occupations, electron count = their total,
+\* spin polarisation = |alpha total - beta total|; an assigned spin channel reads back and leaves the other one alone
+MoLawsStep(e) ==
+  /\ (e.spin_sum /\ e.nelec_is_total /\ e.spinpol_is_difference /\ e.set_reads_back /\ e.set_keeps_other) = TRUE
+  /\ UNCHANGED vars
 Step ==
   /\ l <= Len(Traces[tid])
   /\ LET e == Traces[tid][l] IN
+       IF e.op = "MoLaws" THEN MoLawsStep(e) ELSE
        IF e.op = "Shell" THEN ShellStep(e)
        ELSE IF e.op = "ShellSet" THEN ShellSetStep(e)
        ELSE IF e.op = "ShellNb" THEN ShellNbStep(e)
